@@ -243,7 +243,9 @@ func Run(o *core.Options) int {
 		"keys.Seed is pinned to a constant (the digest seed is random per process in production; verdicts do not depend on it)",
 		"64-bit digests (InvariantCacheKey, iterator-key suffix) are compared as digests: equal digests over |S| <= 2*10^6 are taken as equal pre-hash encodings (accidental collision probability < 10^-6); canonical forms of the harness are compared through 128-bit SHA-256 prefixes",
 		"fine class = proto/struct equality modulo struct-field order, contextual-tuple order, filter-list order and SortedSet insertion order only: +0/-0, duplicated list entries, nil-vs-empty are different fine classes (no equal key demanded)",
-		"coarse (answer-relevant) class additionally identifies: nil and empty request/condition context; nil and empty filter slices; duplicated filter entries; a UserFilter ObjectRelation {object, relation} with the user string object#relation it denotes; RelationReference.Condition inside AllowedUserTypeRestrictions (ignored by every datastore); edges that differ only in their From node; the request relation of an edge key. nil and empty ObjectIDs sets stay different (nil = no restriction, set = intersection, storage.ReadStartingWithUserFilter doc)",
+		"coarse (answer-relevant) class additionally identifies: nil and empty request/condition context; nil and empty filter slices; duplicated filter entries; a UserFilter ObjectRelation {object, relation} with the user string object#relation it denotes; RelationReference.Condition inside AllowedUserTypeRestrictions (ignored by every datastore); edges that differ only in their From node; the request relation of an edge key.",
+		"nil and empty ObjectIDs are one class, as the repository's key test documents (TestReadStartingWithUserKey/nil_object_ids_equals_empty_object_ids); the memory/SQL disagreement on an empty set is C13's subject; non-empty sets are distinct from both",
+		"type names (RelationReference.Type in AllowedUserTypeRestrictions, the type part of a UserFilter object) are restricted to strings without ':', '#', '@' and whitespace, which model validation enforces; every other component (store, model, object ids, relations, users, condition names, context keys/values) keeps the separator- and tag-laden strings",
 		"contextual-tuple lists with two tuples of one (object, relation, user) are not in S (not a legitimate request, DESIGN C24)",
 		"EdgeCacheKey inputs go through check.NewRequest and real weighted-graph edges of one 3-type model under three model ids, so object/relation/user are model-valid there; every other function gets raw strings",
 	)
